@@ -539,18 +539,30 @@ def array_cases():
             for t in '%!#$':
                 for base in (None, 0, 1):
                     for mode in ('dim', 'undim'):
-                        cases.append((ext, t, base, mode))
+                        for warm in ('cold', 'exec', 'eval'):
+                            cases.append((ext, t, base, mode, warm))
     return cases
 
 
 def check_array(part, case):
-    ext, t, base, mode = case
+    ext, t, base, mode = case[:4]
+    warm = case[4] if len(case) > 4 else 'cold'
     ext = tuple(ext)
     H = _H()
     s = H.new_session()
+    # what the session did before: nothing, statements with expressions, an API evaluation
+    if warm == 'exec':
+        r = H.run(s, b'X=1:X$="w"+"x":PRINT X;X$')
+        if r.err is not None or r.exc is not None:
+            raise CheckError('warm-up failed: %r' % r)
+    elif warm == 'eval':
+        if s.evaluate(b'"a"+"b"') != b'ab':
+            raise CheckError('warm-up evaluate failed')
     eff = base or 0
     name = 'A' + t
     cls = 'array/%dd/%s/base-%s/%s' % (len(ext), t, 'unset' if base is None else base, mode)
+    if warm != 'cold':
+        cls += '/after-' + warm
     if base is not None:
         r = H.run(s, b'OPTION BASE %d' % base)
         if r.err is not None or r.exc is not None:
@@ -585,13 +597,22 @@ def check_array(part, case):
     # the BASIC array holds the same elements
     for idx in product(*[range(e) for e in ext]):
         expr = ('%s(%s)' % (name, ','.join(str(i + eff) for i in idx))).encode()
-        v = s.evaluate(expr)
+        ok, v = _guard(part, cls, list(case), s.evaluate, expr)
         part.n += 1
+        if not ok:
+            break
         if v != lookup(value, idx):
             part.violation(cls + '/basic-view-differs',
                            'list%s = %r but BASIC %s = %r' % (list(idx), lookup(value, idx), expr.decode(), v),
                            list(case))
             break
+    # and still does after those evaluations, an unrelated assignment and a statement
+    s.set_variable('B$', b's%d' % (len(ext) + 7))
+    H.run(s, b'Y$="y"+"z"')
+    ok, again = _guard(part, cls, list(case), s.get_variable, name + '()')
+    if not ok or again != got:
+        part.violation(cls + '/changed-later', 'get_variable(%s()) gave %r, after evaluating its elements %r' % (
+            name, got, again), list(case))
     part.classes.add(cls)
 
 
